@@ -20,7 +20,53 @@ pub fn keys_for(rev: &HashMap<char, FKey>, text: &str) -> Option<Vec<FKey>> {
 
 pub fn specs() -> Vec<CfgSpec> {
     let f = |o: u16| CfgSpec::new(Lay::Probhat, O_FSUGG | O_NUMPAD | o);
-    vec![f(0), f(O_TKAR), f(O_ENG), f(O_SQ), f(O_ANSI), f(O_TKAR | O_ENG | O_SQ), f(O_TKAR | O_ENG | O_SQ | O_ANSI), f(O_ENG | O_SQ)]
+    vec![
+        f(0), f(O_TKAR), f(O_ENG), f(O_SQ), f(O_ANSI), f(O_TKAR | O_ENG | O_SQ), f(O_TKAR | O_ENG | O_SQ | O_ANSI), f(O_ENG | O_SQ),
+        f(O_KARORDER), f(O_KARORDER | O_ENG | O_TKAR), f(O_VOWEL | O_CHANDRA | O_REPH | O_ENG),
+    ]
+}
+
+/// The same text in typewriter order (old vowel-sign order): a left-standing sign goes in front of its consonant cluster,
+/// the two-part signs are typed as ে in front and া / ৌ behind.
+pub fn typewriter(text: &str) -> String {
+    use crate::fixedkit::{is_consonant, HASANTA};
+    let cs: Vec<char> = text.chars().collect();
+    let mut out = String::new();
+    let mut i = 0;
+    while i < cs.len() {
+        if !is_consonant(cs[i]) {
+            out.push(cs[i]);
+            i += 1;
+            continue;
+        }
+        let start = i;
+        i += 1;
+        while i + 1 < cs.len() && cs[i] == HASANTA && is_consonant(cs[i + 1]) {
+            i += 2;
+        }
+        let cluster: String = cs[start..i].iter().collect();
+        match cs.get(i) {
+            Some(&k) if matches!(k, 'ি' | 'ে' | 'ৈ') => {
+                out.push(k);
+                out.push_str(&cluster);
+                i += 1;
+            }
+            Some('ো') => {
+                out.push('ে');
+                out.push_str(&cluster);
+                out.push('া');
+                i += 1;
+            }
+            Some('ৌ') => {
+                out.push('ে');
+                out.push_str(&cluster);
+                out.push('ৌ');
+                i += 1;
+            }
+            _ => out.push_str(&cluster),
+        }
+    }
+    out
 }
 
 /// punctuation ignored when comparing with the dictionary (ASCII punctuation, danda, ZWNJ)
@@ -36,6 +82,8 @@ pub struct Tally {
     pub events: u64,
     pub lists: u64,
     pub untypeable: u64,
+    pub nokey: u64,
+    pub inner: u64,
     pub c: HashMap<&'static str, (u64, u64)>,
 }
 impl Tally {
@@ -49,7 +97,9 @@ impl Tally {
     pub fn flush(&self, out: &mut Out) {
         out.count("evaluations", self.events);
         out.count("lists_judged", self.lists);
-        out.count("untypeable_texts_skipped", self.untypeable);
+        out.count("words_without_single_code_point_keys_skipped", self.nokey);
+        out.count("texts_with_punctuation_inside_the_word", self.inner);
+        out.count("texts_composed_differently_than_meant", self.untypeable);
         for (k, (ch, nv)) in &self.c {
             out.count(&format!("{k}.checked"), *ch);
             out.count(&format!("{k}.nonvacuous"), *nv);
@@ -148,24 +198,47 @@ pub fn judge_list(o: &PhonOracle, spec: &CfgSpec, keys: &[FKey], upto: usize, au
 }
 
 /// Type `keys` on an idle context, judging the list after every key; ends with finish.
-pub fn type_and_judge(o: &PhonOracle, sess: &Sess, keys: &[FKey], target: &str, out: &mut Out, t: &mut Tally) {
+/// `mirror` is a context with the same options but suggestions off: what it shows is the composed text.
+pub fn type_and_judge(o: &PhonOracle, sess: &Sess, mirror: &Sess, keys: &[FKey], target: &str, out: &mut Out, t: &mut Tally) {
     let spec = sess.spec;
+    let mut composed = String::new();
     for (i, &(k, m, _)) in keys.iter().enumerate() {
-        t.events += 1;
+        t.events += 2;
+        composed = match mirror.key(k, m, 0) {
+            Ok(s) if s.is_lonely() => s.get_lonely_suggestion().to_string(),
+            Ok(_) => {
+                out.violation("first-is-typed-text", format!("c15:list-with-suggestions-off:{}", spec.short()), case_json(&spec, keys, i + 1), "a single string".into(), "a list".into());
+                break;
+            }
+            Err(p) => {
+                out.violation("first-is-typed-text", format!("c15:panic@{}", p.loc), case_json(&mirror.spec, keys, i + 1), "a single string".into(), format!("panic at {}: {}", p.loc, p.msg));
+                break;
+            }
+        };
         match sess.key(k, m, 0) {
             Ok(s) => {
+                if composed.is_empty() {
+                    // nothing composed yet (a left-standing sign waiting for its consonant): nothing to offer
+                    t.clause("nothing-composed-first-is-empty", true);
+                    let r = Rs::of(&s);
+                    let ok = match &r {
+                        Rs::Single(x) => x.is_empty(),
+                        Rs::Full { aux, list, .. } => aux.is_empty() && list.first().map_or(true, |x| x.is_empty()),
+                    };
+                    if !ok {
+                        out.violation("first-is-typed-text", format!("c15:candidates-for-empty-composition:{}", spec.short()), case_json(&spec, keys, i + 1), "nothing, or a first candidate equal to the (empty) composed text".into(), format!("{r:?}"));
+                    }
+                    continue;
+                }
                 if s.is_lonely() {
                     out.violation("first-is-typed-text", format!("c15:single-with-suggestions-on:{}", spec.short()), case_json(&spec, keys, i + 1), "a list".into(), "a single string".into());
                     break;
                 }
                 let aux = s.get_auxiliary_text().to_string();
-                // the composed text must be what we meant to type (ZWNJ from traditional joining aside), else the text is not typeable this way
-                let want: String = target.chars().take(i + 1).collect();
-                if no_zwnj(&aux) != no_zwnj(&want) {
-                    t.untypeable += 1;
-                    break;
+                if aux != composed {
+                    out.violation("first-is-typed-text", format!("c15:auxiliary-differs-from-composed:{}", spec.short()), case_json(&spec, keys, i + 1), format!("auxiliary text {composed:?} (what the same keys compose with suggestions off)"), format!("{aux:?}, list {:?}", s.get_suggestions()));
                 }
-                judge_list(o, &spec, keys, i + 1, &aux, s.get_suggestions(), out, t);
+                judge_list(o, &spec, keys, i + 1, &composed, s.get_suggestions(), out, t);
             }
             Err(p) => {
                 out.violation("first-is-typed-text", format!("c15:panic@{}", p.loc), case_json(&spec, keys, i + 1), "a list".into(), format!("panic at {}: {}", p.loc, p.msg));
@@ -174,6 +247,12 @@ pub fn type_and_judge(o: &PhonOracle, sess: &Sess, keys: &[FKey], target: &str, 
         }
     }
     let _ = sess.finish();
+    let _ = mirror.finish();
+    // was the text composed as meant (ZWNJ from traditional joining aside)? informational: the lists were judged against
+    // what was composed either way
+    if no_zwnj(&composed) != no_zwnj(target) {
+        t.untypeable += 1;
+    }
 }
 
 pub const FWRAPS: [(&str, &str); 7] = [("\"", "\""), ("(", ":"), ("'", "।"), ("(", ")"), ("", "।"), ("\"'", "'\""), ("", ":")];
@@ -184,14 +263,16 @@ impl Prop for C15 {
     }
     fn rule(&self) -> String {
         "every prefix of dictionary words typed through the Probhat layout via a reverse key map computed from the layout file (every 12th word in quick plus every word that occurs more than once in the data, every word in thorough), \
-         plus the half-word wrapped in 7 punctuation/quote wrappings, each in 1 (quick, rotating) / 4 (thorough) of 8 contexts over subsets of {traditional joining, smart quotes, English, ANSI}; \
+         plus the half-word wrapped in 7 punctuation/quote wrappings, plus every fourth word with a punctuation mark inside it (the full stop from the number pad), each in 1 (quick, rotating) / 4 (thorough) of 11 contexts over subsets of \
+         {traditional joining, smart quotes, English, ANSI} plus old vowel-sign order (keys in typewriter order) and the auto-vowel/chandra/reph helpers; every context has a twin with suggestions off that receives the same keys and defines the composed text; \
          the list returned after every key is judged. distinct_nontrivial = distinct (composed text, options) pairs whose list was judged."
             .into()
     }
     fn assumptions(&self) -> Vec<String> {
         vec![
             "dictionary.json read independently; distance = harness Levenshtein over code points between the typed word and the candidate's middle part as shown".into(),
-            "texts whose characters have no single-code-point key, or that the engine composes differently, are counted as untypeable and skipped".into(),
+            "the composed text is what a second context with the same options but suggestions off shows for the same keys (C04/C12/C14 decide whether that text is right)".into(),
+            "words with a character that has no single-code-point key are skipped (counted)".into(),
             "not claimed: that every completion in the dictionary is offered".into(),
         ]
     }
@@ -201,7 +282,7 @@ impl Prop for C15 {
     fn minima(&self, _tier: Tier) -> Vec<(&'static str, u64)> {
         vec![
             ("lists_judged", 20_000), ("completion-is-dictionary-prefix-match.nonvacuous", 10_000), ("distance-order.nonvacuous", 5_000),
-            ("at-most-nine.nonvacuous", 1_000), ("english-last.nonvacuous", 2_000), ("no-repeat.nonvacuous", 10_000),
+            ("at-most-nine.nonvacuous", 1_000), ("english-last.nonvacuous", 2_000), ("no-repeat.nonvacuous", 10_000), ("texts_with_punctuation_inside_the_word", 200), ("nothing-composed-first-is-empty.nonvacuous", 50),
         ]
     }
     fn run_shard(&self, env: &Env, out: &mut Out) {
@@ -210,9 +291,11 @@ impl Prop for C15 {
             return;
         };
         let rev = lo.reverse();
+        // the number-pad decimal key (all contexts have the number-pad option on)
+        let dot: Option<FKey> = keys().iter().find(|k| k.name == "VC_KP_DECIMAL").filter(|k| lo.value(k.code, 0, true) == Some(".")).map(|k| (k.code, 0u8, '.'));
         let root = env.root("c15");
         fresh_root(&root);
-        let sessions: Vec<Sess> = match specs().into_iter().map(|s| Sess::new(s, &root)).collect::<Result<_, _>>() {
+        let sessions: Vec<(Sess, Sess)> = match specs().into_iter().map(|s| Ok((Sess::new(s, &root)?, Sess::new(CfgSpec::new(s.lay, s.opts & !O_FSUGG), &root)?))).collect::<Result<_, Panic>>() {
             Ok(v) => v,
             Err(p) => {
                 out.violation("setup", format!("c15:setup-panic@{}", p.loc), json!({}), "context creation".into(), p.msg);
@@ -243,14 +326,35 @@ impl Prop for C15 {
             if !mine {
                 continue;
             }
-            let Some(keys) = keys_for(&rev, w) else {
-                t.untypeable += 1;
+            let (Some(keys), Some(tkeys)) = (keys_for(&rev, w), keys_for(&rev, &typewriter(w))) else {
+                t.nokey += 1;
                 continue;
             };
             for j in 0..per {
-                let sess = &sessions[(n / env.nshards + j * 3) % sessions.len()];
-                out.begin_case(|| case_json(&sess.spec, &keys, keys.len()));
-                type_and_judge(&o, sess, &keys, w, out, &mut t);
+                let (sess, mirror) = &sessions[(n / env.nshards + j * 3) % sessions.len()];
+                let keys = if sess.spec.has(O_KARORDER) { &tkeys } else { &keys };
+                out.begin_case(|| case_json(&sess.spec, keys, keys.len()));
+                type_and_judge(&o, sess, mirror, keys, w, out, &mut t);
+            }
+            // punctuation inside the word (the full stop comes from the number pad)
+            if n % 4 == 0 {
+                let cs: Vec<char> = w.chars().collect();
+                if cs.len() >= 2 {
+                    let cut = 1 + (n / 4) % (cs.len() - 1);
+                    let p = ['.', '-', ',', '.', '\''][(n / 8) % 5];
+                    let pk = if p == '.' { dot } else { rev.get(&p).copied() };
+                    let head: String = cs[..cut].iter().collect();
+                    let tail: String = cs[cut..cs.len().min(cut + 2)].iter().collect();
+                    if let (Some(a), Some(pk), Some(b)) = (keys_for(&rev, &head), pk, keys_for(&rev, &tail)) {
+                        let mut keys = a;
+                        keys.push(pk);
+                        keys.extend(b);
+                        let (sess, mirror) = &sessions[(n / 4) % 8];
+                        out.begin_case(|| case_json(&sess.spec, &keys, keys.len()));
+                        t.inner += 1;
+                        type_and_judge(&o, sess, mirror, &keys, &format!("{head}{p}{tail}"), out, &mut t);
+                    }
+                }
             }
             // wrapped half-word
             let cs: Vec<char> = w.chars().collect();
@@ -258,9 +362,9 @@ impl Prop for C15 {
             let (l, r) = FWRAPS[n % FWRAPS.len()];
             let text = format!("{l}{half}{r}");
             if let Some(keys) = keys_for(&rev, &text) {
-                let sess = &sessions[(n / env.nshards + 5) % sessions.len()];
+                let (sess, mirror) = &sessions[(n / env.nshards + 5) % 8];
                 out.begin_case(|| case_json(&sess.spec, &keys, keys.len()));
-                type_and_judge(&o, sess, &keys, &text, out, &mut t);
+                type_and_judge(&o, sess, mirror, &keys, &text, out, &mut t);
             }
         }
         t.flush(out);
@@ -271,7 +375,7 @@ impl Prop for C15 {
         let Some(evs) = case.get("events").and_then(evs_from_json) else { return };
         let root = env.root("c15");
         fresh_root(&root);
-        let Ok(sess) = Sess::new(spec, &root) else { return };
+        let (Ok(sess), Ok(mirror)) = (Sess::new(spec, &root), Sess::new(CfgSpec::new(spec.lay, spec.opts & !O_FSUGG), &root)) else { return };
         let mut keys: Vec<FKey> = vec![];
         let mut target = String::new();
         for e in &evs {
@@ -281,7 +385,7 @@ impl Prop for C15 {
             }
         }
         let mut t = Tally::default();
-        type_and_judge(&o, &sess, &keys, &target, out, &mut t);
+        type_and_judge(&o, &sess, &mirror, &keys, &target, out, &mut t);
         t.flush(out);
     }
 }
